@@ -384,12 +384,11 @@ def spec(action, arg, w):
     if w.api is not None and w.api != B.API and action in UPCHECKED:
         # the daemon speaks another API version (older OR newer): the mismatch line naming the remote version, a non-zero
         # exit status, and the action is not carried out (the world stays as it is)
+        if action == 'fg':
+            return None     # (a client that accepts the daemon goes interactive: not run; the other eight actions cover upcheck)
         e.fail()
         e.need_error = True
-        if action != 'fg':
-            e.items = [Item('err', 'Sorry', contains=['API version', w.api], what='API version mismatch: the daemon reports %r' % w.api)]
-        else:
-            e.check_extra = False
+        e.items = [Item('err', 'Sorry', contains=['API version', w.api], what='API version mismatch: the daemon reports %r' % w.api)]
         return e
     if action in ('start', 'stop', 'restart', 'signal', 'clear'):
         sig = None
@@ -604,13 +603,16 @@ def assign(items, lines):
     return got, [i for i in range(len(items)) if i not in got], [j for j in range(len(lines)) if j not in owner]
 
 
-def monitor_world(ctx, r, line, wjson, wafter):
-    """r: the executed case (c20.execute), wjson: the world before, wafter: the World the client talked to"""
+def monitor_world(ctx, r, line, wjson, wafter, level=None):
+    """r: the executed case (c20.execute), wjson: the world before, wafter: the World the client talked to;
+    level: None | {'e2e': plan} -- the case was run through the real XML-RPC layer (c20_e2e.py)"""
     B = _B()
     action, arg = B.parse_cmd(line)
-    inp = {'line': line, 'world': wjson}
+    inp = dict({'line': line, 'world': wjson}, **(level or {}))
+    via = '' if not level else ' (through the real XML-RPC layer, answers at once - / deferred at poll d: %s)' % ' '.join(
+        '-' if d is None else str(d) for d in level['e2e'][:len(r.log)])
     def bad(kind, what):
-        ctx.violation(kind, what + ' [line %r, exit %d, output %r]' % (line, r.exit, r.raw[:300]), inp)
+        ctx.violation(kind, what + via + ' [line %r, exit %d, output %r]' % (line, r.exit, r.raw[:300]), inp)
     if r.escaped:
         bad('exception-escaped-onecmd:' + r.escaped, 'an exception left Controller.onecmd instead of an error line')
         return
